@@ -21,3 +21,16 @@ func (s *ImmuStore) vLogIDs() []byte {
 	sort.Slice(ids, func(a, b int) bool { return ids[a] < ids[b] })
 	return ids
 }
+
+// orderedIndexers returns the indexers sorted by target prefix: under
+// simulation the (random) map iteration order must not decide the schedule.
+func (s *ImmuStore) orderedIndexers(indexers map[[32]byte]*indexer) []*indexer {
+	list := make([]*indexer, 0, len(indexers))
+	for _, idx := range indexers {
+		list = append(list, idx)
+	}
+	sort.Slice(list, func(a, b int) bool {
+		return string(list[a].TargetPrefix()) < string(list[b].TargetPrefix())
+	})
+	return list
+}
